@@ -158,6 +158,15 @@ class C17Episode(Episode):
                     self.old_size_at_set = os.path.getsize(pth) \
                         if os.path.exists(pth) else 0
             self.world.reply_hooks.append(on_reply)
+        if self.cfg.get('stdin_closed'):
+            # a daemon started with descriptor 0 closed (circusd <&-, some
+            # init systems) - as far as the workers' pipes are concerned:
+            # the first one opened from now on is number 0
+            try:
+                self.saved0 = os.dup(0)
+                os.close(0)
+            except OSError:
+                self.saved0 = None
         self.base_fds = None
         self.plans = dict((wc.get('marker', wc['name']), wc.get('plans', []))
                           for wc in self.cfg['watchers'])
@@ -576,9 +585,16 @@ class C17Episode(Episode):
             while fd < 1030:
                 fd = os.dup(fd)
                 filler.append(fd)
+        self.saved0 = None
         try:
             return super().run()
         finally:
+            if self.saved0 is not None:
+                try:
+                    os.dup2(self.saved0, 0)
+                    os.close(self.saved0)
+                except OSError:
+                    pass
             for fd in filler:
                 try:
                     os.close(fd)
@@ -760,6 +776,8 @@ class C17(Prop):
         cfg['buffer'] = rng.choice([16, 1024, 1024, 4096])
         if rng.random() < 0.06:
             cfg['high_fds'] = True
+        elif rng.random() < 0.05:
+            cfg['stdin_closed'] = True
         cfg['max_steps'] = 300000
         cfg['step_cost'] = rng.choice([0.0, 0.0, 1e-4, 1e-3, 5e-3])
         cfg['check_delay'] = rng.choice([0.3, 1.0, 5.0])
